@@ -114,6 +114,44 @@ def judge(work, name, outs, devs):
     return verdicts, states
 
 
+def splitter_design(res, work, tier):
+    """C07 at the design level: DocImpl.tla (the section splitter transcribed) satisfies the outline requirements for every
+    block sequence of one container up to the bound; the relation the splitter does NOT guarantee must be rejected"""
+    cfg = "MC_DocImpl_quick.cfg" if tier == "quick" else "MC_DocImpl_thorough.cfg"
+    r = tlc("MC_DocImpl.tla", cfg, os.path.join(work, "mc_docimpl"), workers=8, timeout=3000, heap="6g")
+    if not tlc_ok(r):
+        res.violation(save_replay(work, "C07_splitter_design", {"tlc_output": r["out"][-6000:]}),
+                      "TLC: DocImpl!Predict (the transcribed section splitter) violates the outline requirements")
+    res.add_tlc(cfg, r)
+    rr = tlc("MC_DocImpl.tla", "MC_DocImpl_relative.cfg", os.path.join(work, "mc_docimpl_rel"), workers=2, timeout=600)
+    if "is violated" not in rr["out"]:
+        raise ToolError("MC_DocImpl_relative.cfg no longer fails: the spec lost its teeth")
+
+
+def predict_drift(res, work, name, outs):
+    """binds DocImpl!Predict to the code: heading levels written by the real formatter == Predict, for every recorded event of
+    the heading universe.  Drift is reported in the evidence (and on stdout); it is not a violation of C07 by itself."""
+    import concurrent.futures
+
+    def one(i):
+        r = tlc("Trace_DocImpl.tla", "Trace_DocImpl.cfg", os.path.join(work, "trdi_%s_%d" % (name, i)), workers=1, timeout=2400,
+                env={"TRACE": outs[i][0]}, trace_mode=True, heap="3g")
+        if '"ACCEPTED"' not in r["out"]:
+            raise ToolError("Trace_DocImpl did not consume %s:\n%s" % (outs[i][0], r["out"][-3000:]))
+        return r["out"].count('<<"MATCH"'), prints(r["out"], "DRIFT")
+
+    with concurrent.futures.ThreadPoolExecutor(max_workers=5) as ex:
+        for m, ds in ex.map(one, range(len(outs))):
+            res.cov["predict_matches"] = res.cov.get("predict_matches", 0) + m
+            res.cov["drift"] += len(ds)
+            for d in ds[:3]:
+                if len(res.cov.setdefault("drift_samples", [])) < 5:
+                    res.cov["drift_samples"].append(d)
+    if res.cov["drift"]:
+        print("DRIFT property=C07 the formatter's heading levels differ from DocImpl!Predict on %d observations (model out of date; "
+              "not a verdict on the property): %s" % (res.cov["drift"], json.dumps(res.cov["drift_samples"][:1])[:300]))
+
+
 def find_detail(outs, v):
     ev, det = outs[v["shard"]]
     found = []
@@ -140,6 +178,8 @@ def check(pid, tier):
         outs, stats = replay(work, name, vec, exts=exts)
         verdicts, states = judge(work, name, outs, devs)
         res.cov["trace_states"] = res.cov.get("trace_states", 0) + states
+        if pid == "C07" and name.startswith("heads"):
+            predict_drift(res, work, name, outs)
         total_cases += stats["cases"]
         total_events += stats["events"]
         rejects += stats["render_rejects"]
@@ -166,6 +206,8 @@ def check(pid, tier):
                         break
     if pid == "C03":
         nontrivial += total_extra(res, work, tier)
+    if pid == "C07":
+        splitter_design(res, work, tier)
     res.cov["traces_validated_against_impl"] = total_events
     res.cov["evaluations"] = total_events
     res.cov["distinct_nontrivial"] = nontrivial
